@@ -596,9 +596,26 @@ func c01HistRandom(r *prng.R) (*c01Hist, string) {
 	return h, "random"
 }
 
-func genC01Hist(c *Ctx, r *prng.R) {
-	n := c.Scale(150, 3000)
-	for i := 0; i < n; i++ {
+// c01HistGen emits the histories one at a time, so that genC01 can interleave
+// them with the (for the extracted model much more expensive) c01.ser cases:
+// bin/check hands contiguous chunks of the case list to a pool of model
+// processes.
+type c01HistGen struct {
+	c    *Ctx
+	r    *prng.R
+	i, n int
+}
+
+func newC01HistGen(c *Ctx, r *prng.R) *c01HistGen {
+	return &c01HistGen{c: c, r: r, n: c.Scale(100, 3000)}
+}
+
+// next emits up to k histories
+func (g *c01HistGen) next(k int) {
+	c, r := g.c, g.r
+	for ; k > 0 && g.i < g.n; k-- {
+		i := g.i
+		g.i++
 		var h *c01Hist
 		var name string
 		switch i % 10 {
@@ -620,6 +637,9 @@ func genC01Hist(c *Ctx, r *prng.R) {
 		c01HistOracle(c, in, h, out)
 	}
 }
+
+// rest emits the histories not emitted yet
+func (g *c01HistGen) rest() { g.next(g.n) }
 
 // Go-side oracles of a history: every output parses back to the current
 // structure with the current hash (cert), and equals the bytes of a freshly
